@@ -8,6 +8,8 @@
  *      S0 SL zck_get_chunk_comp_data first / last     M zck_get_missing_range(-1 and 1) + zck_get_range_char
  *      Ps copy-chunks with this file as source into the peer    Pt copy-chunks from the peer into this file
  *      Q  zck_find_matching_chunks both ways    X zck_close    A advanced open: zck_init_adv_read + lead + header
+ *      E  zck_clear_error    Re read to the end with buffer 7, clearing the error after every failed read (no close)
+ *      r  one zck_read of 5 bytes (leaves decoded bytes unread)
  * output: A <idx> seq=<i>   before every sequence (so that a crash is attributable)
  *         Z <idx> opened=<0|1> nseq=<n>
  * the verdict of the case is the status line of the runner (sanitizer report, signal, timeout).
@@ -71,6 +73,19 @@ static void read_all(zckCtx *zck, int bs) {
     zck_close(zck);
 }
 
+static void read_recover(zckCtx *zck) {
+    char buf[7];
+    size_t total = 0;
+    int errs = 0;
+    for(long i = 0; i < 4000000; i++) {
+        ssize_t r = zck_read(zck, buf, sizeof buf);
+        if(r == 0) break;
+        if(r < 0) { if(++errs > 6 || !zck_clear_error(zck)) break; continue; }
+        total += r;
+        if(total > (64u << 20)) break;
+    }
+}
+
 static void run_seq(actx *c, acase *k, char *seq, int *opened) {
     int fd = tmp_file_with("as", k->file.p, k->file.n);
     zckCtx *zck = zck_create();
@@ -88,7 +103,10 @@ static void run_seq(actx *c, acase *k, char *seq, int *opened) {
     for(char *o = strtok_r(ops, ",", &save); o; o = strtok_r(NULL, ",", &save)) {
         if(o[0] == 'A') continue;
         /* calls are made whether or not the open succeeded: a failed context must refuse them cleanly */
-        if(o[0] == 'R') read_all(zck, o[1] == '1' ? 1 : o[1] == '7' ? 7 : 32768);
+        if(o[0] == 'R' && o[1] == 'e') read_recover(zck);
+        else if(o[0] == 'E') zck_clear_error(zck);
+        else if(o[0] == 'r') { char b5[5]; zck_read(zck, b5, sizeof b5); }
+        else if(o[0] == 'R') read_all(zck, o[1] == '1' ? 1 : o[1] == '7' ? 7 : 32768);
         else if(o[0] == 'V') zck_validate_checksums(zck);
         else if(o[0] == 'D') zck_validate_data_checksum(zck);
         else if(o[0] == 'F') { zck_find_valid_chunks(zck); zck_reset_failed_chunks(zck); }
